@@ -14,6 +14,6 @@ verus!{ fn f(a: u8) -> (r: u8) requires a < 10 ensures r == a + 1 { a + 1 } }
 fn main(){}
 EOR
 (cd .cache && verus warm.rs >/dev/null 2>&1) || echo "setup: verus warm-up failed"
-# build the regex crate once for the bounded stand-ins (B17a, B13b)
-(python3 lib/bunit.py B17a >/dev/null 2>&1 && python3 lib/bunit.py B13b >/dev/null 2>&1) || echo "setup: bounded warm-up failed (the units build on first use)"
+# build the regex crate once for the bounded stand-ins (B17a, B13b, B02a)
+(python3 lib/bunit.py B17a >/dev/null 2>&1 && python3 lib/bunit.py B13b >/dev/null 2>&1 && python3 lib/bunit.py B02a >/dev/null 2>&1) || echo "setup: bounded warm-up failed (the units build on first use)"
 echo "setup: done"
